@@ -2463,6 +2463,7 @@ func (m *repoManager) cacheBranchHeads(r *repoT, lock bool) {
 // For all data tiers of storage, remove data kv pairs associated with this data instance.
 // This can be called asynchronously since it can be time-consuming.
 func (r *repoT) deleteData(data DataService) {
+	verifhook.Yield("datastore.deleteData.start")
 	// Delete entries in the sync graph if this data needs to be synced with another data instance.
 	_, syncable := data.(Syncer)
 	if syncable {
